@@ -264,12 +264,13 @@ func (e *c01Env) c08Parts() []c01Part {
 	return []c01Part{e.c08PartInproc(), e.c08PartOneshot(), e.c08PartFilterProcess(), e.c08PartGit(), e.c08PartSkipSmudge()}
 }
 
-func c08Outcome(delivery, branch string, n int, fail *c01Fail, sm string) string {
+func c08Outcome(delivery, branch string, in c01Input, fail *c01Fail, sm string) string {
+	n := len(in.Data)
 	res := "ok"
 	if fail != nil {
 		res = "FAIL-" + fail.Clause
 	}
-	return fmt.Sprintf("%s/%s/%s/%s/%s", delivery, branch, c01SizeBucket(n), sm, res)
+	return fmt.Sprintf("%s/%s/%s/%s/%s/%s", delivery, branch, in.Kind, c01SizeBucket(n), sm, res)
 }
 
 // ---------------------------------------------------------------------------------------------------------
@@ -346,7 +347,7 @@ func (e *c01Env) c08PartInproc() c01Part {
 				}
 			}
 		}
-		r.Outcome = c08Outcome("inproc", branch, n, fail, sm)
+		r.Outcome = c08Outcome("inproc", branch, in, fail, sm)
 		return r
 	}
 	return c01Part{"inproc", run}
@@ -453,7 +454,7 @@ func (e *c01Env) c08PartOneshot() c01Part {
 				}
 			}
 		}
-		r.Outcome = c08Outcome("oneshot", branch, n, fail, sm)
+		r.Outcome = c08Outcome("oneshot", branch, in, fail, sm)
 		return r
 	}
 	return c01Part{"oneshot", run}
@@ -545,7 +546,7 @@ func (e *c01Env) c08PartFilterProcess() c01Part {
 				}
 			}
 		}
-		r.Outcome = c08Outcome("filterprocess", branch, n, fail, sm)
+		r.Outcome = c08Outcome("filterprocess", branch, in, fail, sm)
 		return r
 	}
 	return c01Part{"filterprocess", run}
@@ -643,7 +644,7 @@ func (e *c01Env) c08PartGit() c01Part {
 				}
 			}
 		}
-		r.Outcome = c08Outcome("git", branch, n, fail, sm)
+		r.Outcome = c08Outcome("git", branch, in, fail, sm)
 		return r
 	}
 	return c01Part{"git", run}
